@@ -213,3 +213,18 @@ def flat_events(ev):
     if cname(ev) == 'HplEventDisjunction':
         return flat_events(ev.event1) + flat_events(ev.event2)
     return [ev]
+
+
+def message_aliases(a):
+    """Names of @variables used only as messages (every occurrence is the object of a field access): the aliases."""
+    as_msg, other = set(), set()
+    for n in preorder(a):
+        for k in kids(n):
+            if cname(k) == 'HplVarReference':
+                if cname(n) == 'HplFieldAccess' and n.message is k:
+                    as_msg.add(_s(k.token)[1:])
+                else:
+                    other.add(_s(k.token)[1:])
+    if cname(a) == 'HplVarReference':
+        other.add(_s(a.token)[1:])
+    return as_msg - other
